@@ -493,6 +493,32 @@ def r4(ctx, cfg):
             if not data and r1[0] == "call" and r1[1] == "std::iter::Iterator::fold" and len(r1[2]) == 3:
                 f2 = peel(r1[2][2])
                 data = is_param_field(strip_adapters(r1[2][0]), "resp", "data") and f2[0] == "fn" and f2[1].endswith("Response::set_data")
+        # the fields of a fresh Response set one by one (`out.events = resp.events; out.messages = resp.messages.into_iter().map(customize_msg).collect()`):
+        # the same vectors, moved instead of appended to empty ones
+        sets = {}
+        rr = ret
+        while rr[0] in ("vp", "upd"):
+            if rr[0] == "upd":
+                for p0, v0 in rr[2]:
+                    if len(p0) == 1 and isinstance(p0[0], str):
+                        sets.setdefault(p0[0], v0)
+                rr = rr[1]
+            else:
+                rr = rr[2]
+        fresh = peel(rr)[0] == "call" and peel(rr)[1].endswith(("Response::new", "Default::default"))
+        if fresh:
+            evs = evs or ("events" in sets and is_param_field(sets["events"], "resp", "events"))
+            attrs = attrs or ("attributes" in sets and is_param_field(sets["attributes"], "resp", "attributes"))
+            if not msgs and "messages" in sets:
+                cs = pipeline.contents(P, F, f, sets["messages"])
+                if len(cs) == 1 and cs[0].kind in ("all-of", "expr") and not cs[0].conds and not cs[0].adapters and is_param_field(cs[0].src, "resp", "messages"):
+                    e0 = peel(cs[0].expr)
+                    msgs = e0[0] == "call" and e0[1] == "contracts::customize_msg" and peel(e0[2][0])[0] == "bound"
+                elif len(cs) == 1 and cs[0].kind == "opaque":
+                    m0 = peel(sets["messages"])
+                    a1 = peel(m0[2][0]) if m0[0] == "call" and m0[2] else ("?",)
+                    msgs = a1[0] == "call" and a1[1] == "std::iter::Iterator::map" and is_param_field(a1[2][0], "resp", "messages") and \
+                        peel(a1[2][1]) == ("fn", "contracts::customize_msg")
         for name, ok in (("messages(through customize_msg)", msgs), ("events", evs), ("attributes", attrs), ("data", data)):
             ctx.ob(R, key, "carries-%s" % name, ok, "customize_response does not carry %s: %s" % (name, fmt(ret)[:200]), fn=f, sample=name)
 
